@@ -110,6 +110,29 @@ Theorem C17_property_in_branch_refuted : exists schema, forall fuel g,
 Proof. exists sch_prop_in_branch. exact property_in_branch_refuted. Qed.
 Print Assumptions C17_property_in_branch_refuted.
 
+(* the unresolved examples definition of a parameter is the one of the first raw
+   parameter with the same name AND location, whatever same-named parameters of
+   other locations (with or without examples) are listed before or after it *)
+Theorem C17_examples_lookup_by_location : forall pre p post name loc field x,
+  forallb (fun q => has_name q && negb (name_is name q && in_is loc q)) pre = true ->
+  name_is name p = true -> in_is loc p = true -> obj_get field p = Some x ->
+  find_param_examples (pre ++ p :: post) name loc field = Ok x.
+Proof. exact lookup_by_location. Qed.
+Print Assumptions C17_examples_lookup_by_location.
+
+(* the rule before b8949ae5 (name only; kept as a sentinel) dies on a header `id`
+   without examples listed before a query `id` with examples; the present rule
+   finds the definition and its example is extracted *)
+Theorem C17_examples_lookup_by_name_only_refuted : exists params name field d v,
+  find_param_examples_by_name_only params name field = Err Raised /\
+  find_param_examples params name s_query field = Ok d /\
+  extract_inner_examples d d = XOk [v].
+Proof.
+  exists [p_header_id; p_query_id], s_id, s_examples, d_examples, (JStr [81;49]%N).
+  exact lookup_by_name_only_refuted.
+Qed.
+Print Assumptions C17_examples_lookup_by_name_only_refuted.
+
 (* hypotheses are satisfiable by non-trivial inputs *)
 Theorem C17_hypotheses_satisfiable :
   (exists exs, containers_ok exs = true /\ length (produce_combinations exs) = 3 /\
